@@ -406,6 +406,10 @@ impl<'a> Gen<'a> {
                 let mut eb = env.clone();
                 eb.iters.push((it.clone(), Kind::Arr));
                 eb.in_fold = true;
+                // no unguarded append to the stream being folded over (a self-feeding fold only ends at the 1024 cap)
+                if !over_canon {
+                    eb.streams.retain(|x| x != &s);
+                }
                 let (mut body, _) = self.gen_instr(depth.saturating_sub(2), &eb);
                 if !over_canon && self.chance(0.3) {
                     // bounded recursion: elements whose head matches get one more append
